@@ -1,7 +1,7 @@
 # Builds libtins from /repo's CURRENT working tree into /verif/build/<flavour>/ and links the engines.
 # Flavours: asan (g++ ASan+UBSan), sancov (clang trace-pc-guard + loads/stores, for thr), plain (g++ -O2, valgrind)
 REPO ?= /repo
-V := /verif
+V := $(patsubst %/,%,$(dir $(abspath $(lastword $(MAKEFILE_LIST)))))
 BUILD ?= asan
 BUILDROOT ?= $(V)/build
 B := $(BUILDROOT)/$(BUILD)
